@@ -14,12 +14,16 @@
 #include <sys/mman.h>
 int* __errno_location(void) { static int e; return &e; }
 #ifdef FIBER_STACK_MMAP
-#define SBUF (8192 + 64)
+/* the page size is an environment parameter: a small one keeps the byte-level stack object within the solver's reach (the real 4096 gives a
+ * 13M-variable formula); lemma_page_rounding covers the sizing arithmetic for the real page size */
+#define VPAGE 256
+#define SBUF (6 * (VPAGE - 50) + 64)
 #else
 #define SBUF (1024 + 15 + 16)
 #endif
 static unsigned char STACKBUF[SBUF] __attribute__((aligned(16)));
-static int mallocs, frees, mmaps, munmaps, mprotects; static void* last_alloc; static size_t last_size; static int free_bad;
+static int mallocs, frees, mmaps, munmaps, mprotects; static void* last_alloc; static size_t last_size; static int free_bad, map_bad, guard_bad;
+static long vpage = 4096;
 #ifdef FIBER_STACK_MALLOC
 /* allocator contract: any alignment (16 is NOT assumed); lemma_frame_arith covers every base address and size */
 static void* stub_malloc(size_t n) {
@@ -32,13 +36,14 @@ static void stub_free(void* p) { if (p != last_alloc || frees) free_bad = 1; fre
 #define free stub_free
 #endif
 #ifdef FIBER_STACK_MMAP
-long sysconf(int n) { return 4096; }
+long sysconf(int n) { return vpage; }
 void* mmap(void* a, size_t n, int prot, int fl, int fd, long off) {
-  mmaps++; if (verif_bool()) return MAP_FAILED;
+  mmaps++; if (!(prot == (PROT_READ | PROT_WRITE) && (fl & MAP_PRIVATE) && (fl & MAP_ANONYMOUS) && fd == -1)) map_bad = 1;
+  if (verif_bool()) return MAP_FAILED;
   VASSUME(n <= SBUF); last_alloc = STACKBUF; last_size = n; return last_alloc;
 }
 int munmap(void* p, size_t n) { if (p != last_alloc || n != last_size || munmaps) free_bad = 1; munmaps++; return 0; }
-int mprotect(void* p, size_t n, int prot) { mprotects++; if (p != last_alloc) free_bad = 1; return verif_bool() ? 0 : -1; }
+int mprotect(void* p, size_t n, int prot) { mprotects++; if (p != last_alloc || n < 1 || n > (size_t)vpage || prot != PROT_NONE) guard_bad = 1; return verif_bool() ? 0 : -1; }
 #endif
 #include "src/fiber_context.c" /* woven */
 #undef malloc
@@ -53,12 +58,13 @@ fiber_context_t CTX;
 void h_init(void) {
   size_t sz = (size_t)verif_u64(); void* param = (void*)verif_u64();
 #ifdef FIBER_STACK_MMAP
-  VASSUME(sz >= 1024 && sz <= 8092);   /* rounds to two pages */
-#else
+  vpage = VPAGE;
+#endif
   VASSUME(sz >= 1024 && sz <= 1024 + 15);   /* every residue mod 16 at the documented minimum FIBER_MIN_STACK_SIZE (the frame sits at the TOP of the
                                                stack, so larger sizes only move it: lemma_frame_arith covers all sizes and base addresses) */
-#endif
-  mallocs = frees = mmaps = munmaps = mprotects = 0; free_bad = 0; last_alloc = 0; last_size = 0;
+  mallocs = frees = mmaps = munmaps = mprotects = 0; free_bad = map_bad = guard_bad = 0; last_alloc = 0; last_size = 0;
+  /* the context memory is the caller's and arrives with ANY content (test_context.c passes uninitialised stack memory) */
+  CTX.is_thread = (int)verif_u64(); CTX.ctx_stack = (void*)verif_u64(); CTX.ctx_stack_size = (size_t)verif_u64(); CTX.ctx_stack_pointer = (void**)verif_u64();
   int r = fiber_context_init(&CTX, sz, &the_fn, param);
   if (r == FIBER_SUCCESS) {
     unsigned char* lo = (unsigned char*)CTX.ctx_stack; unsigned char* hi = lo + CTX.ctx_stack_size; void** sp = CTX.ctx_stack_pointer;
@@ -68,16 +74,26 @@ void h_init(void) {
     VASSERT(sp[0] == 0 && sp[1] == 0 && sp[2] == 0 && sp[3] == 0 && sp[4] == 0 && sp[5] == 0, "C19: callee-saved register slots start as 0");
     VASSERT(sp[6] == (void*)&the_fn && sp[7] == 0 && sp[8] == param, "C19: slot 6 = function (rip), slot 7 = dummy return address, slot 8 = argument");
     VASSERT(CTX.is_thread == 0, "C19: a created context is not a thread context");
+#ifdef FIBER_STACK_MMAP
+    VASSERT(mmaps == 1 && !map_bad && munmaps == 0, "C19: the mmap stack is one private anonymous read-write mapping");
+    VASSERT(mprotects == 1 && !guard_bad && (unsigned char*)sp >= lo + VPAGE, "C19: its lowest page is made a guard page (PROT_NONE) and the initial frame is above it");
+#endif
     /* and it is released exactly once, with the call and size it was allocated with */
     fiber_context_destroy(&CTX);
     VASSERT(!free_bad && frees + munmaps == 1, "C19: the stack is released exactly once with the strategy's own call (and size)");
   } else {
-    VASSERT(r == FIBER_ERROR && !free_bad && (mmaps == 0 || last_alloc == 0 || munmaps == 1 || mprotects == 0 || 1), "C19: failure is reported as FIBER_ERROR");
+    VASSERT(r == FIBER_ERROR && !free_bad, "C19: failure is reported as FIBER_ERROR");
+#ifdef FIBER_STACK_MMAP
+    VASSERT(munmaps == (last_alloc != 0), "C19: a failed init unmaps the mapping it made exactly once (guard page refused) and nothing otherwise");
+#else
+    VASSERT(frees == 0 && last_alloc == 0, "C19: a failed init had no stack to release");
+#endif
   }
   VCANARY("context_init can return");
 }
 void h_thread_context(void) {
   mallocs = frees = mmaps = munmaps = 0; free_bad = 0;
+  CTX.is_thread = (int)verif_u64(); CTX.ctx_stack = (void*)verif_u64(); CTX.ctx_stack_size = (size_t)verif_u64(); CTX.ctx_stack_pointer = (void**)verif_u64();
   int r = fiber_context_init_from_thread(&CTX);
   VASSERT(r == FIBER_SUCCESS && CTX.is_thread == 1 && CTX.ctx_stack == 0, "C19: a thread context has no stack of its own");
   fiber_context_destroy(&CTX);
@@ -97,7 +113,7 @@ void lemma_frame_arith(void) {
 }
 #ifdef FIBER_STACK_MMAP
 void lemma_page_rounding(void) {
-  size_t n = (size_t)verif_u64(); VASSUME(n <= (1ull << 32));
+  size_t n = (size_t)verif_u64(); VASSUME(n <= (1ull << 32)); vpage = 4096;
   size_t r = fiber_round_to_page_size(n);
   VASSERT(r >= n && r >= 2 * 4046, "B: C19 mmap sizing never overflows, covers the request and keeps at least two pages (one is the guard)");
   VCANARY("rounding reachable");
